@@ -5,8 +5,8 @@ from .mir import MirIndex, split_top, strip_lifetimes, last_seg, type_key, Ancho
 
 # ------------------------------------------------------------------ values
 class Agg:
-    __slots__ = ('f', 'ty')
-    def __init__(self, fields, ty=None): self.f, self.ty = list(fields), ty
+    __slots__ = ('f', 'ty', 'env')
+    def __init__(self, fields, ty=None): self.f, self.ty, self.env = list(fields), ty, None
     def __repr__(self): return f'{self.ty or "Agg"}{self.f}'
 class Enum:
     __slots__ = ('v', 'f', 'ty')
@@ -31,7 +31,7 @@ class Vec:
     def __init__(self, items=(), ty='Vec'): self.l, self.ty = list(items), ty
     def __repr__(self): return f'{self.ty}{self.l}'
 class Coro:
-    def __init__(self, pollfn, upvars, tag): self.pollfn, self.up, self.state, self.slots, self.tag = pollfn, list(upvars), 0, {}, tag
+    def __init__(self, pollfn, upvars, tag): self.pollfn, self.up, self.state, self.slots, self.tag, self.env = pollfn, list(upvars), 0, {}, tag, None
     def __repr__(self): return f'Coro<{self.pollfn}@{self.state}>'
 class Slots:                      # view of coroutine saved locals
     def __init__(self, coro): self.coro = coro
@@ -82,11 +82,11 @@ class Engine:
         self.stats = dict(paths=0, steps=0, queries=0, calls=0)
         self._pcache = index.__dict__.setdefault('_pcache', {}); self._enum_cache = dict(STD_ENUMS); self._res_cache = {}
         self.enum_src_dirs = enum_src_dirs
-        self.call_stack = []; self.trace = False; self.env_stack = [{}]; self._gen_cache = index.__dict__.setdefault('_gen_cache', {})
+        self.call_stack = []; self.trace = bool(__import__('os').environ.get('MIRSYM_TRACE')); self.env_stack = [{}]; self._gen_cache = index.__dict__.setdefault('_gen_cache', {})
         self.models = []                           # [(compiled regex, fn)]
         self.touched = {}; self.cov = set()
-        from . import models, models2
-        models.register(self); models2.register2(self)
+        from . import models, models2, models3
+        models.register(self); models2.register2(self); models3.register3(self)
 
     # ---------------- forking
     def choose(self, n):
@@ -292,7 +292,8 @@ class Engine:
         m = re.fullmatch(r'(-?\d+)_([ui])(\d+|size)', s)
         if m: return int(m.group(1))
         if s in ('true', 'false'): return s == 'true'
-        if s.startswith('ZeroSized: '): return Agg([], s[len('ZeroSized: '):])
+        if s.startswith('ZeroSized: '):
+            z = Agg([], s[len('ZeroSized: '):]); z.env = self.env_stack[-1]; return z
         if s == '()': return UNIT
         m = re.fullmatch(r'(.*)::promoted\[(\d+)\]', s)
         if m:
@@ -311,6 +312,8 @@ class Engine:
             bits = 64 if m.group(2) == 'size' else int(m.group(2))
             if m.group(1) == 'u': return (1 << bits) - 1 if m.group(3) == 'MAX' else 0
             return (1 << (bits - 1)) - 1 if m.group(3) == 'MAX' else -(1 << (bits - 1))
+        if s.startswith(('tracing::', 'LevelFilter::')): return Agg([], 'tracing')
+        if s.startswith('{alloc'): return Ref([Agg([], 'static:' + s)], 0)             # reference to a static we never look into            # tracing is modelled as disabled
         segs = split_path(strip_lifetimes(s))
         if len(segs) >= 2 and re.fullmatch(r'\w+', segs[-1]) and self._is_enum(last_seg(segs[-2])) and segs[-1] in self.enum_variants(last_seg(segs[-2])):
             return Enum(segs[-1], ty=last_seg(segs[-2]))
@@ -338,7 +341,8 @@ class Engine:
         raise EngineError('operand ' + s)
 
     def copy_val(self, v):
-        if isinstance(v, Agg): return Agg([self.copy_val(x) for x in v.f], v.ty)
+        if isinstance(v, Agg):
+            a = Agg([self.copy_val(x) for x in v.f], v.ty); a.env = v.env; return a
         if isinstance(v, Enum): return Enum(v.v, [self.copy_val(x) for x in v.f], v.ty)
         return v
 
@@ -420,8 +424,10 @@ class Engine:
         m = re.fullmatch(r'(\{coroutine@[^}]*\}|\{(?:async )?closure@[^}]*\}|[^{]+?) \{ (.*) \}', s)
         if m:
             head = m.group(1); fields = [self.operand(fr, x.split(': ', 1)[1]) for x in split_top(m.group(2))]
-            if head.startswith('{coroutine@'): return Coro(strip_lifetimes(fn.ret), fields, head)
-            if head.startswith('{'): return Agg(fields, head)
+            if head.startswith('{coroutine@'):
+                co = Coro(strip_lifetimes(fn.ret), fields, head); co.env = self.env_stack[-1]; return co
+            if head.startswith('{'):
+                cl = Agg(fields, head); cl.env = self.env_stack[-1]; return cl
             path = strip_lifetimes(head)
             segs = [x for x in split_path(path)]
             # Enum::Variant { .. } vs Struct { .. }
@@ -430,8 +436,9 @@ class Engine:
             return Agg(fields, type_key(path))
         m = re.fullmatch(r'(\{coroutine@[^}]*\}|\{(?:async )?closure@[^}]*\})', s)
         if m:
-            if s.startswith('{coroutine@'): return Coro(strip_lifetimes(fn.ret), [], s)
-            return Agg([], s)
+            if s.startswith('{coroutine@'):
+                co = Coro(strip_lifetimes(fn.ret), [], s); co.env = self.env_stack[-1]; return co
+            cl = Agg([], s); cl.env = self.env_stack[-1]; return cl
         # tuple-like constructor: Path::Variant(args) or Struct(args)
         m = None
         if s.endswith(')'):
@@ -508,8 +515,7 @@ class Engine:
         cur = self.env_stack[-1]
         out = []
         for t in split_top(m.group(1)):
-            t = t.strip()
-            out.append(cur.get(t, t))
+            out.append(self._subst(t.strip(), cur))
         return out
 
     def _generic_names(self, fn):
@@ -531,15 +537,45 @@ class Engine:
         self._gen_cache[name] = res
         return res
 
-    def call_mir(self, fn, args, targs=None):
+    def _self_targs(self, c):
+        """actual type arguments of the Self type in a callee string: `<Ty<A, B> as Trait>::m` or `Ty::<A, B>::m`"""
+        if c.startswith('<'):
+            m = re.match(r'<(.*) as ([^>]*(?:<.*>)?)>::(\w+)(?:::<.*>)?$', c)
+            x = m.group(1) if m else None
+            if x is None:
+                m = re.match(r'<(.*)>::(\w+)(?:::<.*>)?$', c); x = m.group(1) if m else None
+            if x is None: return []
+            x = x.lstrip('&').replace('mut ', '', 1) if x.startswith('&') else x
+            mm = re.search(r'<(.*)>$', x.strip())
+            ts = split_top(mm.group(1)) if mm else []
+        else:
+            segs = split_path(c)
+            if len(segs) < 2: return []
+            mm = re.search(r'::<(.*)>$', segs[-2])
+            ts = split_top(mm.group(1)) if mm else []
+        cur = self.env_stack[-1]
+        return [self._subst(t.strip(), cur) for t in ts]
+
+    def _subst(self, t, env):
+        if not env: return t
+        return re.sub(r'\b(' + '|'.join(re.escape(k) for k in env) + r')\b', lambda m: env[m.group(1)], t)
+
+    def call_mir(self, fn, args, targs=None, self_targs=None, env0=None):
         if fn.blocks is None: fn = self.ix.body(fn)
         if len(self.call_stack) > 200: raise EngineError('call depth')
-        env = {}
+        env = dict(env0) if env0 else {}
+        if self_targs:
+            names = self.ix.impl_generic_names(fn.name)
+            if names and len(names) == len(self_targs):
+                env = {n: t for n, t in zip(names, self_targs) if n != t}
         if targs:
             names = self._generic_names(fn)
-            if len(names) == len(targs): env = dict(zip(names, targs))
+            if len(names) == len(targs): env.update(zip(names, targs))
         self.call_stack.append(fn); self.env_stack.append(env)
         try: return self._run(fn, args)
+        except EngineError as ex:
+            if not hasattr(ex, 'stack'): ex.stack = [f.name for f in self.call_stack]
+            raise
         finally: self.call_stack.pop(); self.env_stack.pop()
 
     def _run(self, fn, args):
@@ -625,12 +661,13 @@ class Engine:
         c = re.sub(r' as (?:\w+::)+(\w+)', r' as \1', c)
         for rx, f in self.overrides:
             if rx.search(c): return f(self, c, args)
+        if self.env_stack[-1]: c = self._subst(c, self.env_stack[-1])
         if not c.startswith('<'):
             segs = split_path(c)
             if len(segs) >= 2 and self._is_enum(last_seg(segs[-2])) and re.sub(r'::<.*', '', segs[-1]) in self.enum_variants(last_seg(segs[-2])):
                 return Enum(re.sub(r'::<.*', '', segs[-1]), list(args), last_seg(segs[-2]))
         fn = self.resolve(c, args)
-        if fn is not None: return self.call_mir(fn, args, self._targs(c))
+        if fn is not None: return self.call_mir(fn, args, self._targs(c), self._self_targs(c) if '<impl at' in fn.name else None)
         for rx, f in self.models:
             if rx.search(c): return f(self, c, args)
         raise EngineError('no model for ' + c)
@@ -664,20 +701,27 @@ class Engine:
             if re.fullmatch(r'[A-Z]\w{0,2}', xs) and args:           # generic param: dispatch on runtime type
                 v = deref(args[0]); xs = getattr(v, 'ty', None)
                 if xs is None: return None
-            return self._find_impl(meth, trait, xs, len(args))
+            targ = re.search(r'<(.*)>$', m.group(2).strip())
+            is_std = xs.startswith(('std::', 'core::', 'alloc::')) or xs in ('str', 'String', 'usize', 'u8', 'u32', 'u64', 'i32', 'i64', 'bool', 'char') or xs.startswith('[')
+            if is_std and not targ: return None                                  # std type, trait without type argument: std's own impl (a model)
+            f = self._find_impl(meth, trait, xs, len(args))
+            if f is not None and targ and len(f.args) >= 2 and is_std:
+                if type_key(f.args[1]) != type_key(split_top(targ.group(1))[0]): return None
+            return f
         segs = split_path(c) if not c.startswith('<') else []
         if len(segs) >= 2:
             meth = re.sub(r'::<.*', '', segs[-1]); ty = '::'.join(re.sub(r'::<.*', '', x) for x in segs[:-1])
             if last_seg(ty)[:1].isupper():
                 f = self._find_impl(meth, None, ty, len(args))
                 if f is not None: return f
-        # free function
-        name = re.sub(r'::<.*', '', segs[-1]) if segs else MirIndex.simple(re.sub(r'::<.*>$', '', c))
-        cands = [f for f in self.ix.by_simple.get(name, []) if '<impl at' not in f.name and '{' not in f.name and len(f.args) == len(args) and f.header.startswith('fn ')]
+        # free function: the printed (trimmed) path must agree with the candidate's printed name
+        if not segs: return None
+        name = re.sub(r'::<.*', '', segs[-1]); cpath = '::'.join(re.sub(r'::<.*', '', x) for x in segs)
+        cands = [f for f in self.ix.by_simple.get(name, []) if '<impl at' not in f.name and '{' not in f.name and len(f.args) == len(args) and f.header.startswith('fn ')
+                 and (f.name == cpath or f.name.endswith('::' + cpath) or cpath.endswith('::' + f.name))]
         if len(cands) == 1: return cands[0]
         if len(cands) > 1:
-            mod = c.split('::')[0]
-            c2 = [f for f in cands if f.name.startswith(mod)]
+            c2 = [f for f in cands if f.name == cpath]
             if len(c2) == 1: return c2[0]
             raise EngineError(f'ambiguous free fn {c}: {[f.name for f in cands]}')
         return None
@@ -723,7 +767,7 @@ class Engine:
         if isinstance(clo_v, Agg) and clo_v.ty and 'closure@' in clo_v.ty:
             fn = self.closure_fn(clo_v)
             env = (clo if isinstance(clo, Ref) else Ref([clo_v], 0)) if fn.byref else clo_v
-            return self.call_mir(fn, [env] + list(args))
+            return self.call_mir(fn, [env] + list(args), env0=clo_v.env)
         if isinstance(clo_v, FnItem): return self.call(clo_v.name, list(args))
         if callable(clo_v): return clo_v(*args)
         raise EngineError(f'closure_call on {clo_v!r}')
@@ -738,7 +782,7 @@ class Engine:
             if fn is None: raise EngineError('coroutine body not found: ' + f.pollfn)
             if f.state != 0: raise EngineError('coroutine polled twice')
             f.state = 1
-            return self.call_mir(fn, [f, Ref(['cx'], 0)])
+            return self.call_mir(fn, [f, Ref(['cx'], 0)], env0=f.env)
         raise EngineError(f'poll on {f!r}')
 
 class Str:
